@@ -71,6 +71,7 @@ def gen_scenario(rng, profile=None):
         scn["maxlength"] = p.get("maxlength", 2000)
         scn["workers"] = min(scn["workers"], 7)
         scn["integrator"] = p.get("integrator", "LangevinInertia")
+        scn["rounded_op"] = bool(p.get("rounded_op", False))
     return scn
 
 
@@ -147,6 +148,8 @@ def build_rundir(scn, rundir):
     if scn["engine"] == "turtlemd":
         return build_rundir_turtle(scn, rundir)
     cfg = build_config(scn)
+    if scn.get("abs_load_dir"):
+        cfg["simulation"]["load_dir"] = os.path.join(os.path.abspath(rundir), "load")
     with open(os.path.join(rundir, "infretis.toml"), "wb") as fh:
         tomli_w.dump(cfg, fh)
     for i, orders in enumerate(initial_orders(scn)):
@@ -172,6 +175,13 @@ def build_rundir_turtle(scn, rundir):
     src = os.path.join(REPO, "examples", "turtlemd", "double_well")
     shutil.copytree(os.path.join(src, "load_copy"), os.path.join(rundir, "load"))
     shutil.copy(os.path.join(src, "orderp.py"), rundir)
+    if scn.get("rounded_op"):
+        # order parameter representable at the six decimals of the stored order files (scope of C06)
+        with open(os.path.join(rundir, "orderp.py"), "a") as fh:
+            fh.write("\n\n_orig_calculate = PositionX.calculate\n\n\n"
+                     "def _rounded(self, system):\n"
+                     "    return [round(float(x), 6) for x in _orig_calculate(self, system)]\n\n\n"
+                     "PositionX.calculate = _rounded\n")
     with open(os.path.join(REPO, "test", "simulations", "data", "wf.toml"), "rb") as fh:
         cfg = tomli.load(fh)
     cfg["runner"]["workers"] = scn["workers"]
